@@ -25,11 +25,18 @@ pub const LIVELOCK_POLLS: u64 = 200_000;
 
 thread_local! {
     static POLLS: std::cell::Cell<(u64, u64, u64)> = const { std::cell::Cell::new((u64::MAX, 0, 0)) };
+    static POLL_SEQ: std::cell::Cell<u64> = const { std::cell::Cell::new(0) };
+}
+
+/// number of task polls so far (the harness' own future is not a task)
+pub fn poll_seq() -> u64 {
+    POLL_SEQ.with(|p| p.get())
 }
 
 /// called by the runtime before every task poll: tasks that keep each other runnable without
 /// ever letting virtual time advance would hang the worker for real
 fn poll_tick() {
+    POLL_SEQ.with(|p| p.set(p.get() + 1));
     let vt = clock_steering::sim::vt_ns();
     let (last, n, max) = POLLS.with(|p| p.get());
     let n = if last == vt { n + 1 } else { 0 };
@@ -86,8 +93,20 @@ pub struct Inj {
     pub dropped: bool,
 }
 
+/// one read of the observation socket by the harness (C19)
+#[derive(Clone, Debug)]
+pub struct Obs {
+    pub t_ns: u64,
+    /// BMCA rounds the daemon had logged when the harness connected / when the document was complete
+    pub rounds_before: u64,
+    pub rounds_after: u64,
+    pub why: &'static str,
+    pub result: Result<Vec<u8>, String>,
+}
+
 #[derive(Clone, Debug, Default)]
 pub struct RunLog {
+    pub obs: Vec<Obs>,
     pub em: Vec<Em>,
     pub inj: Vec<Inj>,
     /// (message, location) of panics raised outside the harness
@@ -129,6 +148,10 @@ enum Ev {
     Sync { peer: usize, n: u32 },
     Rx { peer: usize, em: usize },
     Step(usize),
+    /// C19: read the observation socket (scripted instant, or a third of a BMCA interval after a round)
+    ObsRead(&'static str),
+    /// C19: wake up just after the nominal BMCA instant
+    ObsTick(u64),
     TailStart,
     Probe,
     End,
@@ -178,6 +201,8 @@ struct Drive<'a> {
     jit: Vec<(Chooser, Chooser)>,
     em_count: Vec<BTreeMap<Class, u64>>,
     tail_started: bool,
+    /// C19: a read of the observation socket is due (why)
+    want_read: Option<&'static str>,
 }
 
 impl<'a> Drive<'a> {
@@ -371,6 +396,11 @@ impl<'a> Drive<'a> {
                     }
                 }
             },
+            Ev::ObsRead(why) => self.want_read = Some(why),
+            Ev::ObsTick(k) => {
+                let b = scn.bmca_interval_ns();
+                self.at((k + 1) * b + MS, Ev::ObsTick(k + 1));
+            }
             Ev::TailStart => {
                 self.tail_started = true;
                 net::set_tx_faults(Vec::new());
@@ -479,6 +509,21 @@ impl<'a> Drive<'a> {
     }
 }
 
+/// The harness as the observation client: connect, read to EOF (what the metrics exporter does).
+async fn read_observation(path: &std::path::Path) -> Result<Vec<u8>, String> {
+    use tokio::io::AsyncReadExt;
+    let fut = async {
+        let mut s = tokio::net::UnixStream::connect(path).await.map_err(|e| format!("connect: {e}"))?;
+        let mut buf = Vec::new();
+        s.read_to_end(&mut buf).await.map_err(|e| format!("read: {e}"))?;
+        Ok::<_, String>(buf)
+    };
+    match tokio::time::timeout(std::time::Duration::from_millis(50), fut).await {
+        Ok(r) => r,
+        Err(_) => Err("no complete document within 50 ms of virtual time".into()),
+    }
+}
+
 async fn drive(scn: &Scenario) -> RunLog {
     let clock0 = EPOCH_NS as i128 + scn.clock.offset_ns as i128 - scn.clock.tai as i128 * 1_000_000_000;
     clock_steering::sim::init(clock0, scn.clock.drift_ppb as f64 / 1000.0, scn.clock.tai);
@@ -543,7 +588,22 @@ async fn drive(scn: &Scenario) -> RunLog {
             .collect(),
         em_count: vec![BTreeMap::new(); np],
         tail_started: false,
+        want_read: None,
     };
+    // C19: the observation socket the real observer task serves (in memory, through the tokio facade)
+    let obs_path: Option<std::path::PathBuf> = if scn.observe_ms.is_some() {
+        let args: Vec<String> = std::env::args().collect();
+        args.iter().position(|a| a == "-c").and_then(|i| args.get(i + 1)).and_then(|c| std::path::Path::new(c).parent().map(|d| d.join("observe.sock")))
+    } else {
+        None
+    };
+    if let Some(extra) = &scn.observe_ms {
+        for t in extra {
+            d.at(*t * MS, Ev::ObsRead("scripted_instant"));
+        }
+        d.at(scn.bmca_interval_ns() + MS, Ev::ObsTick(1));
+    }
+    let mut rounds_read = 0u64;
     for (i, p) in scn.peers.iter().enumerate() {
         if p.disabled || p.port >= np {
             continue;
@@ -568,6 +628,25 @@ async fn drive(scn: &Scenario) -> RunLog {
     let notify = net::emit_notify();
     loop {
         d.drain_emitted();
+        if let Some(path) = &obs_path {
+            // right after every BMCA round the daemon logged, and when an event asked for it
+            let seen = crate::logcap::rounds_seen();
+            let why = if seen > rounds_read { Some("after_bmca_round") } else { d.want_read.take() };
+            if let Some(why) = why {
+                if seen > rounds_read {
+                    rounds_read = seen;
+                    // once more before the next round: nothing may have changed
+                    let t = clock_steering::sim::vt_ns() + scn.bmca_interval_ns() / 3;
+                    d.at(t, Ev::ObsRead("between_rounds"));
+                }
+                let t_ns = clock_steering::sim::vt_ns();
+                IN_HARNESS.store(false, Ordering::Relaxed);
+                let result = read_observation(path).await;
+                IN_HARNESS.store(true, Ordering::Relaxed);
+                d.log.obs.push(Obs { t_ns, rounds_before: seen, rounds_after: crate::logcap::rounds_seen(), why, result });
+                continue;
+            }
+        }
         let Some((&(t, s), _)) = d.q.iter().next() else { break };
         let now = clock_steering::sim::vt_ns();
         if t <= now {
@@ -641,6 +720,8 @@ pub fn run_scenario(scn: &Scenario, want_trace: bool) -> ScenarioResult {
         .build()
         .expect("runtime");
     let _ = crate::logcap::take();
+    // C19 needs the debug-level round markers; the other checks keep capturing info and above
+    crate::logcap::set_max_level(if scn.observe_ms.is_some() { 4 } else { 3 });
     let mut log = tracing::subscriber::with_default(crate::logcap::Capture, || rt.block_on(drive(scn)));
     // dropping the runtime drops the daemon's tasks (they never end by themselves)
     drop(rt);
@@ -650,6 +731,7 @@ pub fn run_scenario(scn: &Scenario, want_trace: bool) -> ScenarioResult {
             log.transitions.push((l.t_ns, p, a, b));
         }
     }
+    log.probe("observation_reads", log.obs.len() as u64);
     let n_err = log.daemon_log.iter().filter(|l| l.level == 1).count() as u64;
     let n_warn = log.daemon_log.iter().filter(|l| l.level == 2).count() as u64;
     log.probe("daemon_log_errors", n_err);
@@ -676,6 +758,10 @@ pub fn run_scenario(scn: &Scenario, want_trace: bool) -> ScenarioResult {
     }
     let mut h = vcommon::Fnv::new();
     h.u64(log.digest);
+    if res.digest != 0 {
+        // C19: the oracle left the hash of the documents read from the observation socket here
+        h.u64(res.digest);
+    }
     for v in &res.violations {
         h.str(&v.oracle);
         h.str(&v.key);
